@@ -650,9 +650,11 @@ func run(c *lib.Ctx) error {
 		case "reduce":
 			out, nr := runReduce(*in.Reduce)
 			fmt.Printf("replay reduceS -> %s startNr %d\n", coqS(out), nr)
+			oracleReduce(c, "replay", *in.Reduce, out, nr)
 		case "split":
 			st, ps := runSplit(*in.Split)
 			fmt.Printf("replay splitPeriod -> status %d %s\n", st, ps)
+			oracleSplit(c, "replay", *in.Split, st)
 		}
 		return nil
 	}
@@ -815,16 +817,7 @@ func run(c *lib.Ctx) error {
 		st, ps := runSplit(si)
 		c.Count(fmt.Sprintf("splitPeriod/%s/status-%d", si.Mode, st))
 		c.Res.Inputs[fmt.Sprint(id)] = c06in{Kind: "split", Split: &si}
-		// the rejection clause of the property, directly on splitPeriod
-		if pphv := *si.PPH; pphv >= 1 && pphv <= 3600 && si.SegDurMS > 0 {
-			notMultiple := (3600/pphv*1000)%si.SegDurMS != 0
-			if notMultiple && st != 500 {
-				c.Fail(fmt.Sprint(id), "reject:accepted", fmt.Sprintf("splitPeriod: period duration %d s is not a multiple of the segment duration %d ms but the result is %d", 3600/pphv, si.SegDurMS, st), c06in{Kind: "split", Split: &si})
-			}
-			if !notMultiple && st == 500 {
-				c.Fail(fmt.Sprint(id), "reject:rejected", fmt.Sprintf("splitPeriod: period duration %d s is a multiple of the segment duration %d ms but was rejected", 3600/pphv, si.SegDurMS), c06in{Kind: "split", Split: &si})
-			}
-		}
+		oracleSplit(c, fmt.Sprint(id), si, st)
 		var ases []string
 		for _, as := range buildMPD(si).Periods[0].AdaptationSets {
 			ases = append(ases, coqAsIn(as))
@@ -1197,4 +1190,20 @@ func genSplit(rng *rand.Rand) splitIn {
 		si.AS = append(si.AS, as)
 	}
 	return si
+}
+
+// oracleSplit: the rejection clause of the property, directly on splitPeriod.
+func oracleSplit(c *lib.Ctx, id string, si splitIn, st int) {
+	if si.PPH == nil {
+		return
+	}
+	if pphv := *si.PPH; pphv >= 1 && pphv <= 3600 && si.SegDurMS > 0 {
+		notMultiple := (3600/pphv*1000)%si.SegDurMS != 0
+		if notMultiple && st != 500 {
+			c.Fail(id, "reject:accepted", fmt.Sprintf("splitPeriod: period duration %d s is not a multiple of the segment duration %d ms but the result is %d", 3600/pphv, si.SegDurMS, st), c06in{Kind: "split", Split: &si})
+		}
+		if !notMultiple && st == 500 {
+			c.Fail(id, "reject:rejected", fmt.Sprintf("splitPeriod: period duration %d s is a multiple of the segment duration %d ms but was rejected", 3600/pphv, si.SegDurMS), c06in{Kind: "split", Split: &si})
+		}
+	}
 }
